@@ -146,7 +146,7 @@ def merge_lit(z, a, rng, dz, vals=None, keep=1.0):
     return [[c, dzs[c]] for c in sorted(dzs)]
 
 
-def gen_case(rng, n=None, mode=None, maxshape=None, p_ref=0.0, est=None, p_U=0.2):
+def gen_case(rng, n=None, mode=None, maxshape=None, p_ref=0.0, est=None, p_U=0.2, alone=None):
     n = n or rng.choice([1, 2, 2, 3])
     hi = maxshape or {1: 7, 2: 5, 3: 3}[n]
     shape = [rng.randint(2, hi) for _ in range(n)]
@@ -172,8 +172,17 @@ def gen_case(rng, n=None, mode=None, maxshape=None, p_ref=0.0, est=None, p_U=0.2
     us = [rng.random() < p_U for _ in range(n)] if (rng.random() < 0.5 or p_U > 0.2) else [False] * n
     if est is None:
         est = rng.random() < 0.25
-    case = {"n": n, "dz": dz, "da": da, "z": z, "a": a, "U": us, "shape": shape, "est": est, "body": [],
-            "zmode": mode}
+    if alone is None:
+        alone = rng.choice([0, 0, 0, 0, 0, 1, 2])
+    if alone:
+        # a stand-alone fiber tree: every fiber declares its own shape (1) or active range (2) and
+        # its own format; no two adjacent uncompressed ranks (see no_consec in the model)
+        est = False
+        for i in range(1, n):
+            if us[i] and us[i - 1]:
+                us[i] = False
+    case = {"n": n, "dz": dz, "da": da, "z": z, "a": a, "U": us, "shape": shape, "est": est, "alone": alone,
+            "body": [], "zmode": mode}
     case["body"] = gen_body(rng, case, p_ref=p_ref)
     return case
 
@@ -187,6 +196,10 @@ def streams(tier, rng):
     # a built without a declared shape (rank shapes estimated from ragged fibers), uncompressed ranks
     ne = 100 if tier == "quick" else 1500
     yield ("estimated-U", [gen_case(rng, n=rng.choice([1, 2, 2, 3]), est=True, p_U=0.6) for _ in range(ne)], False)
+    # stand-alone sources (unowned fiber trees), format declared on the fibers' own rank attributes
+    ns = 100 if tier == "quick" else 1500
+    yield ("standalone", [gen_case(rng, n=rng.choice([1, 1, 2, 2, 3]), p_U=0.6, alone=rng.choice([1, 2]))
+                          for _ in range(ns)], False)
     # single-level destination fibers with every class of element against a fixed source and every body
     cases = []
     elems = [None, 0, 4]                       # absent / explicit default / value
@@ -218,7 +231,7 @@ def describe(case):
             "z_empty_subfiber": U.has_empty_sub(case["z"], case["dz"]),
             "writes_default": any(a[0] == "assign" and a[1] == case["dz"] for _, a in case["body"]),
             "refbelow": any(a[0] == "refbelow" for _, a in case["body"]),
-            "a_est_shape": bool(case.get("est")), "a_default_none": case["da"] == NONE_D,
+            "a_est_shape": bool(case.get("est")), "a_standalone": case.get("alone", 0), "a_default_none": case["da"] == NONE_D,
             "offered": min(len(case["body"]), 9)}
 
 
@@ -264,9 +277,10 @@ def act_coq(a):
 
 def case_to_coq(c):
     body = L.lst("(%s, %s)" % (L.zlist(p), act_coq(a)) for p, a in c["body"])
-    return "(Build_c05_case %s %s %s %s %s %s %s %s %s)" % (
+    return "(Build_c05_case %s %s %s %s %s %s %s %s %s %s)" % (
         L.nat(c["n"]), L.z(c["dz"]), L.z(c["da"]), L.tree(c["z"]), L.tree(c["a"]),
-        L.lst(L.b(u) for u in c["U"]), L.zlist(c["shape"]), L.b(c.get("est", False)), body)
+        L.lst(L.b(u) for u in c["U"]), L.zlist(c["shape"]), L.b(c.get("est", False)),
+        L.b(bool(c.get("alone", 0))), body)
 
 
 # ------------------------------------------------------------------ implementation side
@@ -286,7 +300,49 @@ def pay(p):
     return U.undress(p)
 
 
+def build_alone(t, lvl, case):
+    """stand-alone (unowned) fiber tree: per fiber its own shape / active range, leaf default, format"""
+    from fibertree import Fiber
+    n = case["n"]
+    coords = [c for c, _ in t]
+    pays = [U.dress(s) if isinstance(s, int) else build_alone(s, lvl + 1, case) for _, s in t]
+    k = case["shape"][lvl]
+    f = Fiber(coords, pays, shape=k) if case["alone"] == 1 else Fiber(coords, pays)
+    if case["alone"] == 2:
+        f.setActive((0, k))
+    if lvl + 1 < n:
+        # an interior fiber says so (an empty one cannot tell from its payloads)
+        f._setDefault(Fiber)
+    elif True:
+        if case["da"] == NONE_D:
+            f._setDefault(None)
+        elif case["da"] != 0:
+            f._setDefault(U.dress(case["da"]))
+    if U.MODE["touch"]:
+        U.touch(f)
+    if case["U"][lvl]:
+        f.getRankAttrs().setFormat("U")
+    return f
+
+
 def run_impl(case):
+    if case.get("alone"):
+        return run_impl_alone(case)
+    return run_impl_tensor(case)
+
+
+def run_impl_alone(case):
+    n = case["n"]
+    Z = U.build_tensor(case["z"], n, [s + 2 for s in case["shape"]], case["dz"])
+    a = build_alone(case["a"], 0, case)
+    a0 = [U.snap(a), [], True]
+    res = run_nest(case, Z, a)
+    if len(res) == 2:
+        return res
+    return [a0] + res + [[U.snap(a), [], True]]
+
+
+def run_impl_tensor(case):
     n = case["n"]
     # z's ranks are larger than a's so that "z takes a's active range" is visible
     Z = U.build_tensor(case["z"], n, [s + 2 for s in case["shape"]], case["dz"])
@@ -298,8 +354,17 @@ def run_impl(case):
     for rid, u in zip(A.getRankIds(), case["U"]):
         if u:
             A.setFormat(rid, "U")
-    body = {tuple(p): a for p, a in case["body"]}
     a0 = H.state_obs(A, n)
+    res = run_nest(case, Z, A.getRoot())
+    if len(res) == 2:
+        return res
+    return [a0] + res + [H.state_obs(A, n)]
+
+
+def run_nest(case, Z, a_root):
+    """the loop nest; returns [z before, events, z after] or an error observation"""
+    n = case["n"]
+    body = {tuple(p): a for p, a in case["body"]}
     z0 = H.state_obs(Z, n)
     events = []
 
@@ -316,12 +381,12 @@ def run_impl(case):
             elif a[0] == "refbelow":
                 H.apply_w(zr.getPayloadRef(*a[1]), a[2])
     try:
-        nest(Z.getRoot(), A.getRoot(), 0, [])
+        nest(Z.getRoot(), a_root, 0, [])
     except AssertionError:
         return [-1, 1]
     except IndexError:
         return [-1, 2]
-    return [a0, z0, events, H.state_obs(Z, n), H.state_obs(A, n)]
+    return [z0, events, H.state_obs(Z, n)]
 
 
 def repro_py(case):
